@@ -4,7 +4,7 @@ From Coq Require Import ZArith Reals List Bool Sorted.
 From PW Require Import Num NumR Vec NpList Result.
 From PW.model Require Import M_slicing M_slicing_spec.
 From Coq Require Import Permutation.
-From PW.proofs Require Import P_slicing P_slicing_face P_slicing_cover P_slicing_compl P_slicing_mesh P_slicing_perface P_slicing_idem P_slicing_z P_slicing_public.
+From PW.proofs Require Import P_slicing P_slicing_face P_slicing_cover P_slicing_compl P_slicing_mesh P_slicing_perface P_slicing_idem P_slicing_z P_slicing_public P_slicing_area P_slicing_dtypes.
 Import ListNotations.
 
 (* renumbering by bin counting: unique is the strictly increasing list of the values that occur, and
@@ -44,6 +44,19 @@ Theorem C02_slice_returns_on_domain : forall vs fs ref n mask,
   exists r, slice_triangles_by_plane ROps vs fs ref n mask = Ok r.
 Proof. exact slice_total. Qed.
 
+(* dtypes (clauses "float64 vertices, int64 faces", mapping int64): on the dtype model of the wrapper — which return statement
+   of slice_faces_plane is taken decides the dtypes, the wrapper converts the vertices with np.asarray(.., float64) first and
+   asserts float64 / int64 / int64 at the end — whatever dtype the vertex array has (float64, float32, float16, integer): if the
+   call returns, the three arrays are float64 / int64 / int64; and on the domain it returns *)
+Theorem C02_public_dtypes : forall vdt vs fs ref n mask r,
+  slice_triangles_by_plane ROps vs fs ref n mask = Ok r ->
+  slice_triangles_by_plane_dtypes ROps vdt vs fs ref n mask = Ok (MkDt VF64 I64 I64).
+Proof. exact public_dtypes. Qed.
+Theorem C02_public_dtypes_on_domain : forall vdt vs fs ref n mask,
+  (forall f, In f fs -> face_valid (length vs) f) -> mask_ok (length fs) mask ->
+  slice_triangles_by_plane_dtypes ROps vdt vs fs ref n mask = Ok (MkDt VF64 I64 I64).
+Proof. exact public_dtypes_total. Qed.
+
 (* definitional: pins the shape of the model; the content is carried by the traced ties / correspondence *)
 (* empty mesh, mesh without faces: three empty arrays (the model evaluated on empty lists) *)
 Theorem C02_slice_empty_inputs :
@@ -51,6 +64,12 @@ Theorem C02_slice_empty_inputs :
   (forall vs ref n mask, mask = None \/ mask = Some [] ->
      slice_triangles_by_plane ROps vs [] ref n mask = Ok (MkOut [] [] [])).
 Proof. exact (conj slice_no_vertices slice_no_faces). Qed.
+(* what the conversion line is for (the code before fixes/C02-vertex-dtype.diff): a float32 array comes back as float32 from the
+   zero-vertex and nothing-cut returns and the wrapper's assertion fails; the other two returns are float64 anyway *)
+Theorem C02_dtypes_without_conversion :
+  wrapper_dtypes false VF32 PKeptOnly = Raise AssertionError /\ wrapper_dtypes false VF32 PZeroVerts = Raise AssertionError /\
+  wrapper_dtypes false VF32 PCut = Ok (MkDt VF64 I64 I64) /\ wrapper_dtypes false VF32 PEmpty = Ok (MkDt VF64 I64 I64).
+Proof. exact dtypes_without_conversion. Qed.
 (* end of the definitional block *)
 
 (* every returned face entry indexes a returned vertex and every returned vertex is used by a face — for all meshes
@@ -148,6 +167,40 @@ Theorem C02_slice_complement : forall tol eps n o t, (0 <= tol)%R ->
      vadd ROps (vsum_normals (slice_face ROps tol eps n o true t))
                (vsum_normals (slice_face ROps tol eps (vneg ROps n) o true t)) = vscale ROps 1%R (tri_normal t)).
 Proof. exact slice_face_complement. Qed.
+(* ... with the mask bit: a face that is not selected is kept whole by both calls (weight 2); scalar areas too (every output
+   normal is a non-negative multiple of its face's normal, so lengths add up like the vectors) *)
+Theorem C02_slice_complement_face_masked : forall tol eps n o m t, (0 <= tol)%R ->
+  vadd ROps (vsum_normals (slice_face ROps tol eps n o m t)) (vsum_normals (slice_face ROps tol eps (vneg ROps n) o m t)) =
+    vscale ROps (cweight tol n o m t) (tri_normal t) /\
+  (norm_sum (map Some (slice_face ROps tol eps n o m t)) + norm_sum (map Some (slice_face ROps tol eps (vneg ROps n) o m t)) =
+    cweight tol n o m t * vnorm ROps (tri_normal t))%R.
+Proof. intros tol eps n o m t H. exact (conj (face_pair_area tol eps n o m t H) (face_pair_norm tol eps n o m t H)). Qed.
+(* complement for whole meshes, all masks: sum over the returned faces of the call with the plane plus sum over the returned
+   faces of the call with the flipped plane = sum over the input faces, a face counted twice when both calls keep it whole (not
+   selected, or all three corners within tol of the plane) — as vector areas (cross products, i.e. twice the area vectors) and as
+   scalar areas (their lengths).  rows = vertices[faces] with the mask bit, pinned by the third conjunct. *)
+Theorem C02_slice_mesh_complement : forall tol eps vs fs n o fi r1 r2, (0 <= tol)%R -> vs <> [] ->
+  slice_faces_plane ROps tol eps vs fs n o fi = Ok r1 ->
+  slice_faces_plane ROps tol eps vs fs (vneg ROps n) o fi = Ok r2 ->
+  exists mask rows,
+    mask_of (length fs) fi = Ok mask /\ length rows = length fs /\
+    (forall i d, nth_error rows i = Some d ->
+       nth_error fs i = Some (fd_f d) /\ nth_error mask i = Some (fd_m d) /\ lookup3 vs (fd_f d) = Some (fd_t d)) /\
+    vadd ROps (area_sum (mesh_tris (mo_v r1) (mo_f r1))) (area_sum (mesh_tris (mo_v r2) (mo_f r2))) = rows_area tol n o rows /\
+    (norm_sum (mesh_tris (mo_v r1) (mo_f r1)) + norm_sum (mesh_tris (mo_v r2) (mo_f r2)) = rows_norm tol n o rows)%R.
+Proof. exact slice_mesh_complement. Qed.
+Theorem C02_public_mesh_complement : forall vs fs ref n mask r1 r2, vs <> [] ->
+  slice_triangles_by_plane ROps vs fs ref n mask = Ok r1 ->
+  slice_triangles_by_plane ROps vs fs ref (vneg ROps n) mask = Ok r2 ->
+  exists mk rows,
+    mask_of (length fs) (option_map flatnonzero mask) = Ok mk /\ length rows = length fs /\
+    (forall i d, nth_error rows i = Some d ->
+       nth_error fs i = Some (fd_f d) /\ nth_error mk i = Some (fd_m d) /\ lookup3 vs (fd_f d) = Some (fd_t d)) /\
+    vadd ROps (area_sum (mesh_tris (mo_v r1) (mo_f r1))) (area_sum (mesh_tris (mo_v r2) (mo_f r2))) =
+      rows_area (merge_tol ROps) n ref rows /\
+    (norm_sum (mesh_tris (mo_v r1) (mo_f r1)) + norm_sum (mesh_tris (mo_v r2) (mo_f r2)) = rows_norm (merge_tol ROps) n ref rows)%R.
+Proof. exact public_mesh_complement. Qed.
+
 (* the kept fractions themselves: f(ds) + f(-ds) = 1 (2 when all three snapped distances are 0), all 27 corner classes *)
 Theorem C02_kept_fractions_complement : forall tol ds, (0 <= tol)%R -> snapped3 tol ds ->
   (all_zero ds -> kept_frac tol ds + kept_frac tol (negd ds) = 2)%R /\
@@ -189,6 +242,7 @@ Definition C02_all := (C02_unique_bincount_spec, C02_unique_bincount_onto, C02_s
   C02_slice_returns_on_domain, C02_slice_empty_inputs, C02_public_face_order_invariant, C02_public_face_order_invariant_nomask,
   C02_public_vertex_numbering_invariant, C02_slice_idempotent_masked, C02_public_idempotent,
   C02_slice_indices_valid_no_orphans, C02_renumber_keeps_coordinates, C02_slice_provenance, C02_slice_perm_relabel_invariant,
-  C02_slice_idempotent, C02_slice_idempotent_per_face, C02_slice_complement, C02_kept_fractions_complement,
+  C02_slice_idempotent, C02_slice_idempotent_per_face, C02_slice_complement, C02_kept_fractions_complement, C02_slice_complement_face_masked, C02_slice_mesh_complement,
+  C02_public_mesh_complement, C02_public_dtypes, C02_public_dtypes_on_domain, C02_dtypes_without_conversion,
   C02_wrapping_layer_is_model_on_nonnegative_faces, C02_negative_index_survives_refuted).
 Print Assumptions C02_all.
